@@ -173,7 +173,7 @@ def check_struct(case):
     for sc in SCALES:
         try:
             # handed over in a caller-owned buffer that is refilled in place from call to call
-            Xin = _refill(X * sc, 'struct')
+            Xin = _refill.primed(X * sc, 'struct', lambda b_: frequency_transform(b_, sr, m))
             IP, IF, IA = frequency_transform(Xin, sr, m)
             if not np.array_equal(Xin, X * sc):
                 viols.append(('struct:input-modified', '%s scale %g: the IMF array was changed by the call' % (tag, sc)))
